@@ -330,11 +330,11 @@ MUTANTS = [
          what="Bind appended before the statement is ensured on the server",
          old='''                                ExtendedProtocolData::Bind { data, metadata } => {
                                     // This is using a prepared statement
-                                    if let Some(client_given_name) = metadata {''',
+                                    if let Some((parse, hash)) = metadata {''',
          new='''                                ExtendedProtocolData::Bind { data, metadata } => {
                                     self.buffer.put(&data[..]);
                                     // This is using a prepared statement
-                                    if let Some(client_given_name) = metadata {'''),
+                                    if let Some((parse, hash)) = metadata {'''),
     dict(id="c08-evicted-not-recorded", prop="C08", file="src/server.rs", expect="C08-R5",
          what="evicted statement is neither closed nor recorded for closing",
          old='''                self.remove_prepared_statement_from_cache(&evicted_name);
@@ -998,16 +998,67 @@ pub struct ServerPool {'''),
                     // Decide the role before anything below can bail out."""),
     dict(id="c08-failed-reprepare-forgets-name", prop="C08", file="src/client.rs", expect="C08-R4",
          what="a refused re-prepare removes the client's statement name (D51 again)",
-         old="""                            debug!("Could not prepare {} on the server", client_name);""",
-         new="""                            debug!("Could not prepare {} on the server", client_name);
-                            self.prepared_statements.remove(&client_name);"""),
+         old="""                    debug!("Could not prepare {} on the server", parse.name);""",
+         new="""                    debug!("Could not prepare {} on the server", parse.name);
+                    self.prepared_statements.retain(|_, (p, _)| p.name != parse.name);"""),
     dict(id="c08-refused-batch-forgets-by-rewritten-name", prop="C08", file="src/client.rs", expect="C08-R4",
          what="a refused batch forgets every statement that shares the rewritten name (D52 again)",
-         old="""                if let Ok(client_given_name) = Parse::get_name(data) {
+         old="""            if let ExtendedProtocolData::Parse {
+                client_given_name: Some(client_given_name),
+                ..
+            } = data
+            {
+                self.prepared_statements.remove(client_given_name);
+            }""", new="""            if let ExtendedProtocolData::Parse {
+                metadata: Some((parse, _)),
+                ..
+            } = data
+            {
+                let rewritten = parse.name.clone();
+                self.prepared_statements
+                    .retain(|_, (cached, _)| cached.name != rewritten);
+            }"""),
+    dict(id="c08-refused-batch-looks-up-the-rewritten-name", prop="C08", file="src/client.rs", expect="C08-R4",
+         what="a refused batch removes the name read from the buffered (rewritten) message: nothing is forgotten (D63 again)",
+         old="""            if let ExtendedProtocolData::Parse {
+                client_given_name: Some(client_given_name),
+                ..
+            } = data
+            {
+                self.prepared_statements.remove(client_given_name);
+            }""", new="""            if let ExtendedProtocolData::Parse {
+                data,
+                metadata: Some(_),
+                ..
+            } = data
+            {
+                if let Ok(client_given_name) = Parse::get_name(data) {
                     self.prepared_statements.remove(&client_given_name);
-                }""", new="""                if let Ok(rewritten) = Parse::get_name(data).map(|_| data.len()) {
-                    self.prepared_statements.retain(|_, (cached, _)| cached.name.len() != rewritten);
-                }"""),
+                }
+            }"""),
+    dict(id="c08-buffered-parse-carries-the-rewritten-name", prop="C08", file="src/client.rs", expect="C08-R4",
+         what="the name kept with the buffered Parse is the rewritten one (D63 through the other end)",
+         old="""                Some((new_parse.clone(), hash)),
+                Some(client_given_name),""", new="""                Some((new_parse.clone(), hash)),
+                Some(new_parse.name.clone()),"""),
+    dict(id="c19-refused-statement-stays-bound", prop="C19", file="src/client.rs", expect="C19-R6",
+         what="a refused batch removes the name read from the buffered (rewritten) message: the refused statement can be bound later (D63 again)",
+         old="""            if let ExtendedProtocolData::Parse {
+                client_given_name: Some(client_given_name),
+                ..
+            } = data
+            {
+                self.prepared_statements.remove(client_given_name);
+            }""", new="""            if let ExtendedProtocolData::Parse {
+                data,
+                metadata: Some(_),
+                ..
+            } = data
+            {
+                if let Ok(client_given_name) = Parse::get_name(data) {
+                    self.prepared_statements.remove(&client_given_name);
+                }
+            }"""),
     dict(id="c05-parse-arm-ignores-earlier-bind", prop="C05", file="src/client.rs", expect="C05-R8",
          what="the Parse arm's batch test counts earlier Parse messages only (D53 again)",
          old="""                                            matches!(
@@ -1070,6 +1121,47 @@ pub struct ServerPool {'''),
             query_router.update_pool_settings(&pool.settings);
 
             // Handle all custom protocol commands, if any.""", new="""            // Handle all custom protocol commands, if any."""),
+    dict(id="c02-cleanup-answer-ignored", prop="C02", file="src/server.rs", expect="C02-R5",
+         what="checkin_cleanup no longer looks at what the server answered to the clean-up (D64 again)",
+         old="""            if self.query_failed {
+                self.mark_bad("the server refused the clean-up");
+                return Ok(());
+            }
+""", new=""),
+    dict(id="c12-cleanup-answer-ignored", prop="C12", file="src/server.rs", expect="C12-R6",
+         what="checkin_cleanup gives the connection up only when the clean-up query itself failed to be sent (D64 again)",
+         old="""            if self.query_failed {
+                self.mark_bad("the server refused the clean-up");
+                return Ok(());
+            }
+""", new="""            if self.is_bad() {
+                return Ok(());
+            }
+"""),
+    dict(id="c16-resume-longer-command-is-all-pools", prop="C16", file="src/admin.rs", expect="C16-R4",
+         what="only a two-word command is searched for a db,user argument (D65 again)",
+         old="""async fn resume<T>(stream: &mut T, tokens: Vec<&str>) -> Result<(), Error>
+where
+    T: tokio::io::AsyncWrite + std::marker::Unpin,
+{
+    // Everything after the command is its argument: `db, user` arrives split at the blank.
+    let argument = tokens[1..].join(" ");
+    let parts: Vec<&str> = match tokens.len() > 1 {""",
+         new="""async fn resume<T>(stream: &mut T, tokens: Vec<&str>) -> Result<(), Error>
+where
+    T: tokio::io::AsyncWrite + std::marker::Unpin,
+{
+    // Everything after the command is its argument: `db, user` arrives split at the blank.
+    let argument = tokens[1..].join(" ");
+    let parts: Vec<&str> = match tokens.len() == 2 {"""),
+    dict(id="c14-identity-without-ban-time", prop="C14", file="src/pool.rs", expect="C14-R3",
+         what="ban_time is built into the pool but is no longer part of its identity (D66 again, one field)",
+         old="""                config.general.ban_time.hash(&mut hasher);
+""", new=""),
+    dict(id="c19-identity-without-inherited-plugins", prop="C19", file="src/pool.rs", expect="C19-R3",
+         what="the inherited global plugins are no longer part of a pool's identity (D66 again)",
+         old="""                config.plugins.hash(&mut hasher);
+""", new=""),
     # ------------------------------------------------------------------ C17
     dict(id="c17-shutdown-checked-in-transaction", prop="C17", file="src/client.rs", expect="C17-R1",
          what="the transaction loop also reacts to the shutdown broadcast",
@@ -1180,19 +1272,13 @@ panic = "abort"
 
 [dev-dependencies]'''),
     dict(id="c11-ban-on-client-error", prop="C11", file="src/client.rs", expect="C11-R4",
-         what="an unknown prepared statement name bans the server",
-         old='''            None => {
-                return Err(Error::ClientError(format!(
-                    "prepared statement `{}` not found",
-                    client_name
-                )))
-            }''', new='''            None => {
-                pool.ban(address, BanReason::MessageSendFailed, Some(&self.stats));
-                return Err(Error::ClientError(format!(
-                    "prepared statement `{}` not found",
-                    client_name
-                )))
-            }'''),
+         what="a statement with an empty rewritten name (something only the client's bytes decide) bans the server",
+         old='''        debug!("Checking for prepared statement {}", parse.name);
+''', new='''        debug!("Checking for prepared statement {}", parse.name);
+        if parse.name.is_empty() {
+            pool.ban(address, BanReason::MessageSendFailed, Some(&self.stats));
+        }
+'''),
     dict(id="c11-unbounded-startup", prop="C11", file="src/client.rs", expect="C11-R5",
          what="startup packet length no longer bounded",
          old='''    if !(8..=MAX_STARTUP_PACKET_LENGTH).contains(&len) {
